@@ -1,5 +1,5 @@
 """C02 generate honours constraints and returns the importance weight (structural clauses, DESIGN §4-C02)."""
-from . import gfi
+from . import gfi, pjaxr
 
 EXPLANATION = ("ALG/ROLE rules over every generate path (Distribution, Generate handler, Fn, Vmap, Scan, Cond): constrained value "
                "stored unchanged, weight term equals the contract form on the None and constrained cases, weights selected by where.")
@@ -13,5 +13,5 @@ def combs(ctx):
     gfi.cond_rule(ctx, "generate")
 
 
-RULES = [gfi.dist_generate, gfi.collision_helpers, combs]
+RULES = [gfi.dist_generate, gfi.collision_helpers, combs, pjaxr.first_leaf_guard]
 FLOOR = 7
